@@ -191,13 +191,35 @@ func StringPairs(t *Term, alphabet []string, f func(v *Term)) {
 
 // QuirkTerms enumerates the quirk pass: every quirk op over every core
 // leaf, bare and under every wrapper entry of the full alphabet.
-func QuirkTerms() []*Term {
+func QuirkTerms() []*Term { return QuirkTermsFor("") }
+
+// QuirkTermsFor is QuirkTerms restricted to the quirk ops meant for
+// property id (Op.QuirkFor) and, for their extra strings, to the
+// properties listed in Op.QuirkStringsFor ("" = no restriction).
+func QuirkTermsFor(id string) []*Term {
+	has := func(l []string) bool {
+		if id == "" || len(l) == 0 {
+			return true
+		}
+		for _, x := range l {
+			if x == id {
+				return true
+			}
+		}
+		return false
+	}
 	var ts []*Term
 	for _, q := range Quirks {
+		if !has(q.QuirkFor) {
+			continue
+		}
 		if q.Kind == KLeaf {
 			base := instantiate(Entry{Op: q}, nil)
 			ts = append(ts, base.Clone().FillDefault())
 			for _, tmpl := range q.QuirkStrings {
+				if !has(q.QuirkStringsFor) {
+					break
+				}
 				withTmpl := func(t *Term) *Term {
 					t.FillDefault()
 					t.EachSlot(func(k int, o *Term, i int) {
